@@ -243,6 +243,34 @@ pub fn run(cfg: &Cfg) {
             sink.oracle(again == first, "verdict changed under a permutation of signatures / keys", "see preceding vblock ops of this run");
         }
     }
+    // ---- the right key over the wrong bytes: content whose renderings differ (line feeds, tabs, other
+    //      control characters, backslashes, quotes in a name), signed by an authorized key over each
+    //      rendering that is not the signed text - alone (threshold 1) and next to a genuine signature of
+    //      another key (threshold 2)
+    for (n, name) in ["a\nb", "tab\there", "back\\nslash", "cr\rlf", "ctl\u{1}\u{1f}", "quote\"q", "plain"].iter().enumerate() {
+        let meta = MetadataWrapper::Link(gen_link(&mut r, Some(name)));
+        let j = serde_json::to_value(&meta).unwrap();
+        let reference = crate::olpc::olpc(&j).unwrap_or_default();
+        let canonical = meta.to_bytes().unwrap_or_default();
+        let mut with_lf = reference.clone();
+        with_lf.push(b'\n');
+        let renderings: Vec<Vec<u8>> = vec![canonical.clone(), String::from_utf8_lossy(&canonical).replace("\\n", "\n").into_bytes(),
+            serde_json::to_vec(&meta).unwrap(), serde_json::to_vec_pretty(&meta).unwrap(), with_lf];
+        let k = &pool[n % pool.len()];
+        let other = &pool[(n + 1) % pool.len()];
+        for rendering in renderings {
+            if rendering == reference {
+                continue;
+            }
+            let sig = k.key.sign(&rendering).map(|s| s.value().as_bytes().to_vec()).unwrap_or_default();
+            let wrong = Entry { label: keyid_hex(k.public()), sig, valid_under_label: false, class: "other-rendering" };
+            run_case(&mut sink, &meta, &[wrong.clone()], 1, &[k], "other-rendering");
+            if keyid_hex(other.public()) != keyid_hex(k.public()) {
+                let good = Entry { label: keyid_hex(other.public()), sig: valid_sig(&meta, other), valid_under_label: true, class: "valid" };
+                run_case(&mut sink, &meta, &[good, wrong], 2, &[k, other], "other-rendering");
+            }
+        }
+    }
     // ---- authorized keys as a consumer obtains them: read from key descriptions (a layout's key table,
     //      a key file). One key described twice - once truthfully, once with another `keyid` member,
     //      other hash-algorithm list or other member order - is still one key: its signature, listed
